@@ -174,6 +174,7 @@ func (ev *Ev) builtin(name string, x *ast.CallExpr) Value {
 			walkValue(z, "", func(path string, l Value) { u.writeField(ev.st, t, path, l.S, ref, l.T) })
 			u.zeroWaitGroups(ev.st, t, ref)
 			u.checkTypeInvAlloc(ev, t, ref)
+			u.allocT[ref] = t
 		} else {
 			ev.assignLV(&LValue{K: lvDeref, Ref: ref, Typ: t}, z)
 		}
@@ -887,6 +888,7 @@ func (u *Unit) applyContract(ev *Ev, c *Contract, sig *types.Signature, recv *Va
 		u.callbackIteration(ev, sev, c, pnames, args, ord, pos)
 	}
 	pre := st.clone()
+	var lateMods []Clause
 	// havoc
 	if !pureUse {
 		if !c.HasMod && !c.Flags["pure"] {
@@ -895,7 +897,17 @@ func (u *Unit) applyContract(ev *Ev, c *Contract, sig *types.Signature, recv *Va
 			u.famSort("G:calls", arraySort(SRef, SInt))
 			u.havocFam(st, "G:calls", arraySort(SRef, SInt))
 		} else {
-			u.havocModifies(sev, c.Modifies, c)
+			var early []Clause
+			for _, m := range c.Modifies {
+				if m.Expr != nil && mentionsResult(c, m.Expr) {
+					lateMods = append(lateMods, m)
+				} else if m.Expr != nil && u.repHidden(sev, m.Expr) {
+					continue
+				} else {
+					early = append(early, m)
+				}
+			}
+			u.havocModifies(sev, early, c)
 		}
 		if c.Flags["havoc_heap"] {
 			u.havocHeap(st, "callee declared havoc_heap: "+c.Key)
@@ -963,6 +975,9 @@ func (u *Unit) applyContract(ev *Ev, c *Contract, sig *types.Signature, recv *Va
 	}
 	if len(res) == 1 {
 		sev.binds["result"] = res[0]
+	}
+	if len(lateMods) > 0 {
+		u.havocModifies(sev, lateMods, c)
 	}
 	sev.old = pre
 	if c.HasEnsuresPanic || c.Flags["may_panic"] {
